@@ -34,6 +34,19 @@ and Gauss–Seidel.  This file proves it for the FAITHFUL constructor models of 
 * **ILU(k)** (`iluk_scale`): `iluk.hpp` makes no value-dependent decision at all (slots are created by LEVEL, nothing is
   dropped by value — not even an exact zero —, no pivot test), so the level pattern of `c·A` is that of `A` with NO
   hypothesis on the matrix (unsorted rows and duplicates included): same outcome, factors `L`, `c·U`, `c⁻¹·D`.
+
+**Symmetry** (second half of the file): `ilu0_symmetric` — ILU(0) of a symmetric matrix with symmetric stored pattern has
+`U = D⁻¹Lᵀ`, a symmetric `M = (I+L)(D⁻¹+U)` and a symmetric sweep matrix `iluN ω F n` (`SweepIs` ties it to the model
+sweeps); `cycle_symmetric_struct` — `C02b.B_symmetric` from the structural hypotheses only; `ilu0_cycle_symmetric` — its
+instance for ILU(0) hierarchies.  **Hierarchy-level scaling**: `ilu0_apply_scale`, `iluk_apply_scale` — `Hier.scale c h` is
+again an ILU hierarchy (its sweep matrices are those of the factors the constructor computes on `scale A_l c`) and
+`B(cA) = c⁻¹ B(A)`.
+
+**Open**: the smoothing inequality `Contr A (1 − N A)` for these smoothers; the sweep MATRIX of the Chebyshev recurrence
+(hence its symmetry — `N = q(A)`, resp. `q(D⁻¹A)·D⁻¹`, is symmetric for symmetric `A` — and a hierarchy-level statement for
+Chebyshev; only the sweep-level `cheb_sweep_scale` is proved); symmetry for ILU(k) / ILUP; `Bridge.Realizes` for the
+hierarchies the model `Amg.build` constructs with these smoothers (the statements here are about `Hier` with the sweep
+matrices `iluN` of the model factors).
 -/
 set_option linter.unusedSectionVars false
 namespace Amgcl.C02e
@@ -292,6 +305,18 @@ theorem cycle_symmetric_struct {𝕜 : Type} [Field 𝕜] [LinearOrder 𝕜] [Is
     (hnu : p.npre = p.npost) (k : ℕ) {n : ℕ} (h : Hier 𝕜 n) (hA : h.Aᵀ = h.A) (hst : h.SymStruct) (hsym : h.Sym) :
     (h.B p)ᵀ = h.B p ∧ (h.applyB p k)ᵀ = h.applyB p k :=
   ⟨Hier.B_transpose_struct p hnu h hst hsym, Hier.applyB_transpose_struct p hnu k h hA hst hsym⟩
+
+/-- the structural hypotheses are weaker than `Hier.OK` -/
+theorem symStruct_of_OK {𝕜 : Type} [Field 𝕜] [LinearOrder 𝕜] [IsStrictOrderedRing 𝕜] :
+    ∀ {n : ℕ} (h : Hier 𝕜 n), h.OK → h.SymStruct
+  | _, .direct _, hok => hok.1
+  | _, .relax _ _ _, hok => hok.1.1
+  | _, .level _ _ _ _ _ next, hok => ⟨hok.1.1, hok.2.2.2.1, symStruct_of_OK next hok.2.2.2.2.2.2⟩
+
+-- three levels, Gauss–Seidel forward / backward, W-cycle with 2+2 sweeps, `pre_cycles = 3`
+example : (Example.hGS.applyB ⟨2, 2, 2⟩ 3)ᵀ = Example.hGS.applyB ⟨2, 2, 2⟩ 3 :=
+  (cycle_symmetric_struct ⟨2, 2, 2⟩ rfl 3 Example.hGS Example.hGS_OK.spd.1 (symStruct_of_OK _ Example.hGS_OK)
+    Example.hGS_Sym).2
 
 /-- level `(A, N₁, N₂)` is smoothed by ILU(0): `A` is denoted by a symmetric CRS matrix on which the constructor
 succeeds and both sweep matrices are the `iluN` of its factors -/
